@@ -99,7 +99,7 @@ def rule_implicit_wiring(rep: Report, repo: Repo):
     rep.check(ok, RULE, "algorithm_parsing::series_computation linear-operator view wraps the same element of the original series",
               "", loc2(low[0] if low else sc))
     d = [x for x in nested_defs(sc) if x.name == "del_"]
-    pops = [norm(n) for n in own_nodes(d[0]) if isinstance(n, ast.Call)] if d else []
+    pops = [norm(n) for n in own_nodes(d[0]) if isinstance(n, ast.Call) and isinstance(n.func, ast.Attribute) and n.func.attr == "pop"] if d else []
     ok = sorted(pops) == sorted(["series[series_name].pop(index, None)", "linear_operator_series[series_name].pop(index, None)"])
     rep.check(ok, RULE, "algorithm_parsing::series_computation del_ drops the term from both caches", str(pops), loc2(d[0] if d else sc))
     loops = [n for n in own_nodes(sc) if isinstance(n, ast.For) and norm(n.target) == "which"]
